@@ -22,6 +22,7 @@ Plain(maxn, S, cts) == { Sc(f, g, sse, fr, ct, sz, FALSE, FALSE) :
 Special == { Sc(f, f, sse, "cl", "other", << >>, r, ~r) : f \in {"zero", "pos"}, sse \in BOOLEAN, r \in BOOLEAN }
 
 MCFull  == Plain(3, Sizes, {"es", "other"}) \cup Special
+MCQuick == Plain(2, Sizes, {"es", "other"}) \cup Special
 MCSmall == Plain(2, {"s1", "s64k"}, {"other"}) \cup Special
 MCLive  == { s \in Plain(2, {"s4k"}, {"other"}) : s.f # s.g /\ s.fr # "eof" } \cup Special
 MCTiny  == { s \in Plain(2, {"s1", "s64k"}, {"other"}) : s.f # s.g /\ s.fr # "eof" } \cup Special
